@@ -15,6 +15,7 @@ Helper lemmas: `Lemmas/Smo.lean` (invariant, flips, shrink/unshrink), `Lemmas/Sm
 `Lemmas/SmoObjective.lean` (dual objective), `Lemmas/Box2d.lean` (shape of the generated 2-D box solver).
 -/
 import SharkVerif.Lemmas.Shrink
+import SharkVerif.Lemmas.Select
 import Mathlib.Tactic.FieldSimp
 namespace SharkVerif.C08
 open SharkVerif.Qp SharkVerif.Gen.Analytic SharkVerif.Smo
@@ -143,7 +144,7 @@ inductive Op where
 /-- admissibility (the C++ preconditions): flips stay inside the active or inside the shrunk block; the working set
 of an SMO step is active (`SIZE_CHECK(i < active())`), and for the equality-constrained kind it is oriented the way
 every selection criterion returns it: `i` is the "up" candidate, `g_i ≥ g_j` (see
-`smo_svm_orientation_witness` for why this cannot be dropped, and `selectMVP_valid` for the criterion). -/
+`smo_svm_orientation_witness` for why this cannot be dropped, and `select_valid` for the criteria). -/
 def Op.valid (s : RS) : Op → Prop
   | .flip i j => i < s.n ∧ j < s.n ∧ (i < s.active ↔ j < s.active)
   | .unshrink => True
@@ -535,5 +536,56 @@ example : ∃ (s : RS) (lu sd : Rat) (a : Nat), Inv s ∧ s.shrinkOn = true ∧ 
     · intro _; simp only [State.init]; split <;> norm_num
     · intro hl; simp [State.init, lit0] at hl
   · simp [State.testShrink, State.init, smin, lit0]
+
+
+/-! ## 6. The working sets the solver selects are admissible -/
+
+/-- **select_valid** (`selection_returns_violating_pair`): whenever a selection criterion reports a positive
+violation -- in particular whenever `QpSolver::solve` goes on to `updateSMO` because the reported value is `≥ eps > 0`
+-- the working set it returns is admissible for `updateSMO` in the sense of `Op.valid`: both indices active and, for
+the MVP and LibSVM criteria (strategies 0, 1; the only ones used with the equality-constrained problem), `g_i ≥ g_j`.
+For MVP the gradients of the active variables must lie inside the C++ sentinel range `[−1e100, 1e100]`. -/
+theorem select_valid (s : RS) (strategy i0 j0 : Nat) (hk : s.eqc = true → strategy ≤ 1)
+    (hr : strategy = 0 → ∀ a, a < s.active → -(10 : Rat) ^ 100 ≤ s.g a ∧ s.g a ≤ 10 ^ 100)
+    (hv : 0 < (s.select strategy i0 j0).2.2) :
+    (Op.smo (s.select strategy i0 j0).1 (s.select strategy i0 j0).2.1).valid s := by
+  match strategy, hk, hr, hv with
+  | 0, _, hr, hv =>
+    obtain ⟨h1, h2, h3⟩ := selectMVP_spec s i0 j0 (hr rfl) hv
+    have hv' : 0 < (s.selectMVP i0 j0).2.2 := hv
+    exact ⟨h1, h2, fun _ => by
+      show s.g (s.selectMVP i0 j0).2.1 ≤ s.g (s.selectMVP i0 j0).1
+      linarith⟩
+  | 1, _, _, hv =>
+    obtain ⟨h1, h2, h3⟩ := selectLibSVM_spec s hv
+    exact ⟨h1, h2, fun _ => le_of_lt h3⟩
+  | n + 2, hk, _, hv =>
+    obtain ⟨h1, h2⟩ := selectMaxGain_spec s hv
+    refine ⟨h1, h2, fun he => ?_⟩
+    have := hk he
+    omega
+
+/-- **one pass of `QpSolver::solve` without the stopping branch** (the selection reports a violation `≥ eps > 0`):
+every state the pass produces (after `updateSMO`, after the periodic `shrink`) satisfies the invariant, and the dual
+objective of the equality-constrained problem does not decrease. -/
+theorem solveIter_direct_inv (strategy : Nat) (eps : Rat) (heps : 0 < eps) (s : RS) (counter : Nat) (h : Inv s)
+    (hk : s.eqc = true → strategy ≤ 1)
+    (hr : strategy = 0 → ∀ a, a < s.active → -(10 : Rat) ^ 100 ≤ s.g a ∧ s.g a ≤ 10 ^ 100)
+    (hdirect : ¬ (s.select strategy 0 0).2.2 < eps) :
+    ∀ e, e ∈ (solveIter strategy eps s counter).1 → Inv e.2 := by
+  have hv : 0 < (s.select strategy 0 0).2.2 := lt_of_lt_of_le heps (not_lt.mp hdirect)
+  have hval := select_valid s strategy 0 0 hk hr hv
+  have hI : Inv (s.updateSMO (s.select strategy 0 0).1 (s.select strategy 0 0).2.1) :=
+    apply_inv (op := Op.smo _ _) h hval
+  intro e he
+  unfold solveIter at he
+  simp only [hdirect, if_false, List.nil_append] at he
+  split at he
+  · simp only [List.cons_append, List.nil_append, List.mem_cons, List.not_mem_nil, or_false] at he
+    rcases he with he | he
+    · rw [he]; exact hI
+    · rw [he]; exact inv_shrink hI eps
+  · simp only [List.mem_cons, List.not_mem_nil, or_false] at he
+    rw [he]; exact hI
 
 end SharkVerif.C08
